@@ -292,9 +292,23 @@ func BuildLinkWith(l Link, prebuilt policy.Policy) (*delegation.Token, cid.Cid, 
 	}
 	if l.NbfMs != nil {
 		nbfOpt = delegation.WithNotBeforeIn(time.Duration(*l.NbfMs) * time.Millisecond)
+		if sharedDlgNbf != nil {
+			if o, ok := sharedDlgNbf[*l.NbfMs]; ok {
+				nbfOpt = o
+			} else {
+				sharedDlgNbf[*l.NbfMs] = nbfOpt
+			}
+		}
 	}
 	if l.ExpMs != nil {
 		expOpt = delegation.WithExpirationIn(time.Duration(*l.ExpMs) * time.Millisecond)
+		if sharedDlgExp != nil {
+			if o, ok := sharedDlgExp[*l.ExpMs]; ok {
+				expOpt = o
+			} else {
+				sharedDlgExp[*l.ExpMs] = expOpt
+			}
+		}
 	}
 	if l.NbfAbs != nil {
 		nbfOpt = delegation.WithNotBefore(time.Unix(*l.NbfAbs, 0))
@@ -449,7 +463,15 @@ func BuildInvShared(iv Inv, prf []cid.Cid, reg map[string]*args.Args) (*invocati
 		opts = append(opts, invocation.WithExpirationIn(dur(*iv.Exp)))
 	}
 	if iv.ExpMs != nil {
-		opts = append(opts, invocation.WithExpirationIn(time.Duration(*iv.ExpMs)*time.Millisecond))
+		o := invocation.WithExpirationIn(time.Duration(*iv.ExpMs) * time.Millisecond)
+		if sharedInvExp != nil {
+			if so, ok := sharedInvExp[*iv.ExpMs]; ok {
+				o = so
+			} else {
+				sharedInvExp[*iv.ExpMs] = o
+			}
+		}
+		opts = append(opts, o)
 	}
 	if iv.NoIat {
 		opts = append(opts, invocation.WithoutInvokedAt())
